@@ -8,6 +8,8 @@ def run(ctx):
     plans = [
         ("scripted-nonidem-3x1", ["-nodes", "3", "-numconns", "1", "-clients", "2", "-workers", "3", "-round", "80"], True),
         ("scripted-nonidem-2x2", ["-nodes", "2", "-numconns", "2", "-clients", "2", "-workers", "3", "-round", "80"], True),
+        # clients that negotiated compression: the backend compresses its answers, errors included
+        ("scripted-nonidem-lz4-3x1", ["-nodes", "3", "-numconns", "1", "-clients", "2", "-workers", "3", "-round", "80", "-compression", "lz4"], True),
         ("random-drops-3x1", ["-random", n(500, 4000), "-nodes", "3", "-numconns", "1", "-clients", "3", "-workers", "4", "-round", "150", "-droprate", "0.5", "-okbias", "1"], False),
         # graph requests in every form (traversal text, CQL text and EXECUTE of a prepared statement, all with the graph
         # payload) and prepared statements
